@@ -199,6 +199,12 @@ func labelListsFrom(labels []string, maxLen int) [][]core.S {
 	return out
 }
 
+// scoreSpellings: texts that are not a (finite) number, whatever a lenient or hand-rolled parser makes of
+// them. (NaN, Inf and 1_0 are left out: strconv.ParseFloat accepts them - the last one as Go literal syntax -
+// and the statement does not say which grammar of numbers it means beyond that.)
+var scoreSpellings = map[string]string{"minus": "-", "plus": "+", "dot": ".", "minusdot": "-.", "e5": "e5", "1e": "1e", "1e+": "1e+", "0x": "0x", "0x1": "0x1",
+	"arabic": "\u0661", "fullwidth": "\uff11", "plusminus": "+-1", "trailminus": "1-", "twodots": "1.2.3", "percent": "5%", "paren": "(1)", "nul": "1\x00", "f-suffix": "2f", "d-suffix": "1d", "quote": "'1'", "dquote": "\"1\"", "slash": "1/2", "h": "0h"}
+
 type c20Sym struct {
 	Cells []int `json:"cells"` // 9 cells over {A,B,Gap}^2 in row-major order: 0 absent, 1 or 2 = score
 }
@@ -549,7 +555,7 @@ func runC20(r *core.Run) {
 			return core.Outcome{Class: "ok", Nontrivial: true}
 		})
 
-	core.Clause(r, "readncbi-corruptions", core.Opts{Rule: "every single-token corruption of the layout tables (with 0 or 1 layout deviation from {crlf, nofinal, a comment line}): a row value removed, an extra row value, a header column removed/added, each score replaced by x / 1..2 / --1 / empty-quoted, each label (header and row) replaced by AB: the result is (nil, error); non-trivial = all"},
+	core.Clause(r, "readncbi-corruptions", core.Opts{Rule: "every single-token corruption of the layout tables (with 0 or 1 layout deviation from {crlf, nofinal, a comment line}): a row value removed, an extra row value, a header column removed/added, each score replaced by x / 1..2 / --1 / 1,5 and by 23 more texts that are not a number (a bare '-' or '+', '.', '-.', e5, 1e, 1e+, 0x, 0x1, non-ASCII digits, +-1, 1-, 1.2.3, 5%, (1), 1 NUL, 2f, 1d, quoted, 1/2, 0h), each label (header and row) replaced by AB: the result is (nil, error); non-trivial = all"},
 		func(emit func(ncbiTable) bool) {
 			for _, base := range layoutTables {
 				lines := base.tokens()
@@ -563,6 +569,9 @@ func runC20(r *core.Run) {
 								kinds = append(kinds, "label-AB")
 							} else {
 								kinds = append(kinds, "score-x", "score-1..2", "score---1", "score-1,5")
+								for name := range scoreSpellings {
+									kinds = append(kinds, "scoretext="+name)
+								}
 							}
 							for _, k := range kinds {
 								t.Corr = fmt.Sprintf("%s:%d:%d", k, li, ti)
@@ -597,6 +606,9 @@ func runC20(r *core.Run) {
 			fmt.Sscan(p[1], &li)
 			fmt.Sscan(p[2], &ti)
 			l := append([]string(nil), lines[li]...)
+			if name, ok := strings.CutPrefix(kind, "scoretext="); ok {
+				l[ti] = scoreSpellings[name]
+			}
 			switch kind {
 			case "label-AB":
 				l[ti] = "AB"
